@@ -56,3 +56,31 @@ def random_unicode(rng, n):
         p = rng.choice(pools)
         out.append(rng.choice(p))
     return "".join(out)
+
+
+# Letters that CPython's re.IGNORECASE treats as case variants of an ASCII letter but that str.lower()/upper() do not map back
+# (U+017F long s, U+0131 dotless i, U+0130 dotted I, U+212A Kelvin sign): a keyword spelled with one of them still matches the
+# lexer's rule, and whatever the action then does with the matched text sees a non-ASCII spelling.
+CASE_TWINS = {"s": ["\u017f"], "S": ["\u017f"], "i": ["\u0131", "\u0130"], "I": ["\u0131", "\u0130"], "k": ["\u212a"], "K": ["\u212a"]}
+
+def unicode_case_variants(text):
+    """every single-letter respelling of `text` with a Unicode case twin, outside string literals"""
+    out, inside = [], False
+    for i, c in enumerate(text):
+        if c == "'":
+            inside = not inside
+        elif not inside and c in CASE_TWINS:
+            for t in CASE_TWINS[c]:
+                out.append(text[:i] + t + text[i + 1:])
+    return out
+
+KEYWORD_FILTERS = ["a sub 1 eq 2", "a div 2 eq 1", "a mul 2 lt 3", "a is null", "a in (1, 2)", "x/kids/any(k: k/x eq 1)", "x/all(k: k eq 1)", "a lt 1", "a ge 1", "not b1",
+                   "b1 eq false", "x eq duration'P1DT1S'", "geo.intersects(a, geography'POINT(1 2)')", "substring(s, 1) eq 'x'", "tolower(s) eq 'k'", "indexof(s, 'k') eq 1",
+                   "startswith(s, 'k')", "endswith(s, 'i')", "contains(s, 'S')", "second(t) eq 1", "minute(t) eq 1", "totalseconds(d) gt 1", "fractionalseconds(t) lt 1",
+                   "ceiling(x) eq 1", "floor(x) eq 1", "trim(s) eq s", "hassubset(a, b)", "hassubsequence(a, b)", "maxdatetime() gt t", "mindatetime() lt t", "time(t) eq 01:02:03",
+                   "x eq 2020-01-01T01:02:03Z", "x eq 1e5", "x eq -INF", "x eq NaN"]
+
+# literal spellings whose content needs quoting care, as TEXT (parsed by the real parser in the round-trip checks)
+QUOTED_LITERAL_FILTERS = ["geo.intersects(a, geography'it''s')", "geography'a''''b' eq x", "x eq geography''''", "x eq geography''", "name eq 'it''s'", "name eq ''''",
+                          "name eq 'a''''b' and geography'''x''' ne y", "f.g(p=geography'q''r', s='t''u')", "x in (geography'a''b', 'c''d', '''')",
+                          "d eq DURATION'p1dt2h' or d eq duration'-PT0.5S'", "k/any(v: v eq geography'L''Aquila POINT(1 2)')"]
